@@ -1001,7 +1001,7 @@ pub(crate) fn c13_owned_aligned<A: Allocator>(fl: Freelist, owned: bool) {
   let n1: u32 = kani::any();
   let n2: u32 = kani::any();
   let top: bool = kani::any();
-  kani::assume(n1 >= 1 && n1 <= 9 && n2 <= 16);
+  kani::assume(n1 >= 1 && n1 <= 5 && n2 <= 8);
   {
     let mut x = a.alloc_bytes(n1).unwrap();
     unsafe { x.detach() };
@@ -1050,13 +1050,13 @@ pub(crate) fn c13_owned_aligned<A: Allocator>(fl: Freelist, owned: bool) {
   core::mem::forget(a);
   core::mem::forget(b);
 }
-// @h props=C13 tier=quick timeout=1800 bounds=CAP=96,T=u64,n1<=9,n2<=16,owned
+// @h props=C13 tier=quick timeout=1800 bounds=CAP=96,T=u64,n1<=5,n2<=8,owned
 #[kani::proof]
 #[kani::unwind(4)]
 fn c13_owned_aligned_unsync_opt() {
   c13_owned_aligned::<unsync::Arena>(Freelist::Optimistic, true);
 }
-// @h props=C13 tier=thorough timeout=1800 bounds=CAP=96,T=u64,n1<=9,n2<=16,borrowed,retries=1
+// @h props=C13 tier=thorough timeout=1800 bounds=CAP=96,T=u64,n1<=5,n2<=8,borrowed,retries=1
 #[kani::proof]
 #[kani::unwind(4)]
 fn c13_borrowed_aligned_sync_pess() {
